@@ -102,5 +102,7 @@ def run_tlc(module, cfg, tag, workers=16, timeout=3600, simulate=None, depth=Non
         stats["out_path"] = outp
     if not timed_out and not stats.get("completed") and not simulate \
             and "invariant_violated" not in stats:
-        raise TLCError(f"TLC failed ({module}/{cfg}): rc={rc}\n{text[-3000:]}")
+        errs = [m.start() for m in re.finditer(r"^Error: ", text, re.M)]
+        snippet = "\n".join(text[e:e + 400] for e in errs[:3]) if errs else text[-1500:]
+        raise TLCError(f"TLC failed ({module}/{cfg}): rc={rc}\n{snippet}")
     return payloads, stats
